@@ -296,7 +296,9 @@ type sizeSpec struct {
 
 // "up-ws-*": the session is opened on polling and upgraded to websocket before the message is sent —
 // the limit of the session must hold on the transport it was upgraded to as well.
-var declaredModes = []string{"content-length", "chunked", "ws-text", "ws-binary", "up-ws-text", "up-ws-binary"}
+// "jsonp-*": the JSON-P form of a polling POST (query j=0, form body d=<payload>), with and without a
+// declared Content-Length; the transport-level size is the size of the HTTP body.
+var declaredModes = []string{"content-length", "chunked", "ws-text", "ws-binary", "up-ws-text", "up-ws-binary", "jsonp-content-length", "jsonp-chunked"}
 
 func transportOf(declared string) string {
 	if strings.Contains(declared, "ws-") {
@@ -357,6 +359,9 @@ func rawSend(peer *rawpeer.Client, declared string, binary bool, data []byte) (s
 	case "content-length", "chunked":
 		body := append([]byte{'4'}, data...)
 		return peer.PostRaw(body, declared == "chunked")
+	case "jsonp-content-length", "jsonp-chunked":
+		st, _, err := peer.PostJSONP(append([]byte{'4'}, data...), declared == "jsonp-chunked")
+		return st, err
 	default:
 		return 0, peer.Send(refcodec.EPacket{Type: refcodec.EMessage, Binary: binary, Data: data})
 	}
@@ -425,6 +430,13 @@ func (e *enforceEnv) trial(declared string, sz sizeSpec) {
 	n := int(sz.n)
 	if !binary {
 		n-- // the type character "4" is part of the body / frame
+	}
+	if strings.HasPrefix(declared, "jsonp-") {
+		// body = "d=" + form-escaped("4" + data); the two '#' of the id prefix travel as %23
+		if sz.n < 32 {
+			return
+		}
+		n = int(sz.n) - 3 - 4
 	}
 	data := payload(n, binary)
 	key := msgKey(binary, data)
